@@ -60,7 +60,7 @@ func main() {
 	r.Rule("case = (2-4 registry hosts out of a pool incl. same name/different port, each with own credential {user+password, +refresh token, refresh only, static access token, wrong password, none}, " +
 		"scheme {Basic, Bearer, open, unknown}, realm on {own host, foreign token host (possibly shared), another registry's host}; one auth.Client with cache flavour {none, NewCache, NewSingleContextCache}, ForceAttemptOAuth2 on/off). " +
 		"seq: history of 8-30 ops (requests GET/HEAD/POST/PUT/DELETE/ping/catalog/mount with scope hints {none, exact, oddly written, superset, extra repo, for another host, global}, token expiry, scheme change, realm move). " +
-		"conc: warm-up, then rounds of groups of identical cold requests released together with background traffic to other hosts; the token endpoint or the credential helper is held until all entered Cache.Set, then none / the fetch owner(s) / a waiter / deadline-bound members are cancelled; plus unsynchronised storms. " +
+		"conc: warm-up, then rounds of groups of identical cold requests released together with background traffic to other hosts; the token endpoint or the credential helper is held until all entered Cache.Set, then nobody / the fetch owner (once or twice in a row) / a waiter has its context ended by the harness with context.Canceled or context.DeadlineExceeded (manual contexts, no wall clock); plus unsynchronised storms. " +
 		"Every request at the innermost transport is scanned for every secret (raw, base64, form/query-decoded); every returned response is matched with the registry model's last answer. " +
 		"distinct = hash(flavour, force, per-registry (scheme, realm kind, credential kind), op / round shapes); non-trivial = at least one send happened while the client held a secret or token of another host, and (seq) a cached token was presented by a request other than the one that fetched it, or the flavour is none, " +
 		"(conc) at least one group had >= 2 live requests and its token fetch or credential lookup was held while all of them were inside Cache.Set (for flavour none: all held at once)")
@@ -69,12 +69,12 @@ func main() {
 	r.Assume("valid credentials = every secret the client was given for the host is the one the registry / its token service accepts and suffices for the registry's scheme; anonymous access is refused by the world and not judged for liveness")
 	r.Assume("interleavings of the concurrent phases are sampled, not enumerated; coalescing of a late request depends on scheduling and is counted, never demanded")
 
-	worker.Run(r, worker.Opts{Phase: "seq", Total: r.N(6000, 60000), Batch: r.N(125, 400)})
-	worker.Run(r, worker.Opts{Phase: "conc", Total: r.N(2400, 24000), Batch: r.N(50, 150)})
+	worker.Run(r, worker.Opts{Phase: "seq", Total: r.N(6000, 150000), Batch: r.N(125, 500)})
+	worker.Run(r, worker.Opts{Phase: "conc", Total: r.N(2400, 60000), Batch: r.N(50, 200)})
 	if bin := os.Getenv("VERIF_RACE_BIN"); bin != "" {
 		raceDir, _ := os.MkdirTemp("", "verif-c16-race-")
 		defer os.RemoveAll(raceDir)
-		worker.Run(r, worker.Opts{Phase: "race", Total: r.N(600, 6000), Batch: r.N(25, 100), Bin: bin,
+		worker.Run(r, worker.Opts{Phase: "race", Total: r.N(600, 12000), Batch: r.N(25, 100), Bin: bin,
 			Env: []string{"GORACE=halt_on_error=0 exitcode=0 log_path=" + filepath.Join(raceDir, "race")}})
 		n := countRaceReports(raceDir, r)
 		r.Set("race_reports_in_library", n)
@@ -87,8 +87,8 @@ func main() {
 	if r.Counter("hook_auth_cache_set_enter") == 0 {
 		r.Inconclusive("hook auth.cache.set.enter never reached: coalescing rounds were not synchronised")
 	}
-	floor := r.N(4000, 40000)
-	if r.Counter("coalesced_groups") < int64(r.N(800, 8000)) || r.Counter("handovers_after_cancelled_owner") < int64(r.N(300, 3000)) {
+	floor := r.N(4000, 100000)
+	if r.Counter("coalesced_groups") < int64(r.N(800, 25000)) || r.Counter("handovers_after_cancelled_owner") < int64(r.N(300, 10000)) {
 		fmt.Printf("BROKEN: property=C16 too few coalescing observations (coalesced_groups=%d handovers=%d)\n",
 			r.Counter("coalesced_groups"), r.Counter("handovers_after_cancelled_owner"))
 		code := r.Write(floor)
